@@ -491,6 +491,26 @@ theorem runB_ok : check (S2.mkConfig genConsts 3000 2 false)
     (replay (lenThr 3000) (S2.mkConfig genConsts 3000 2 false) (S2.init genConsts 1000000 3000 2 false) runB) 3000 = true := by
   decide
 
+/-- the single-thread constructor branch (`threads = 1`, no status: 100 segments of `align(min(L1, z))`): one worker,
+    one chunk `[0, 3000)`, then `false` -/
+def runC : List S2.Ev :=
+  [⟨0, 0, 0, 0, 0, 0, 0, true, 0, 100, 3120, 0⟩,
+   ⟨0, 0, 100, 3120, 3000, 7, 1, false, 312000, 100, 3120, 3000⟩]
+
+theorem runC_ok : check (S2.mkConfig genConsts 3000 1 false)
+    (replay (lenThr 3000) (S2.mkConfig genConsts 3000 1 false) (S2.init genConsts 1000000 3000 1 false) runC) 3000 = true := by
+  decide
+
+/-- `replay_independent_of_run` instantiated: team of 2 (run A) against a single thread (run C) -/
+example : ∃ s1 s2,
+    replay (lenThr 3000) (S2.mkConfig genConsts 3000 2 false) (S2.init genConsts 1000000 3000 2 false) runA = .ok s1 ∧
+    replay (lenThr 3000) (S2.mkConfig genConsts 3000 1 false) (S2.init genConsts 1000000 3000 1 false) runC = .ok s2 ∧
+    s1.sum = s2.sum := by
+  obtain ⟨s1, h1, c1, _⟩ := check_sound _ _ _ runA_ok
+  obtain ⟨s2, h2, c2, _⟩ := check_sound _ _ _ runC_ok
+  exact ⟨s1, s2, h1, h2, replay_independent_of_run (lenThr 3000) lenF lenF_additive genConsts genConsts_wf 3000
+    (lenThr_spec 3000) _ _ _ _ s1 _ _ _ _ s2 h1 c1 h2 c2⟩
+
 /-- the hypotheses of `replay_total` hold of a concrete run (and its conclusion is the computed 3000) -/
 example : ∃ s, replay (lenThr 3000) (S2.mkConfig genConsts 3000 2 false) (S2.init genConsts 1000000 3000 2 false) runA = .ok s ∧
     completeB (S2.mkConfig genConsts 3000 2 false) s = true ∧ s.sum = lenF (0, 3000) := by
